@@ -498,14 +498,17 @@ func genC14(seed uint64, i int) c14Input {
 		// the active version, through the HTTP handlers: whatever a handler remembers between requests must
 		// not outlive an activate that has returned
 		in.Mode = "http"
-		in.Setup = []DBStep{{Kind: "put", Name: names[0], Val: 1}, {Kind: "put", Name: names[0], Val: 2}}
+		in.Setup = []DBStep{{Kind: "put", Name: names[0], Val: 1}, {Kind: "put", Name: names[0], Val: 2}, {Kind: "put", Name: names[1], Val: 3}}
 		pre = func() int { return 0 }
 		if nth < 3 {
 			nth = 3
 		}
 		per = 3
-		if in.SlowLog == 0 {
-			in.SlowLog = []int{100, 300, 800}[r.IntN(3)]
+		// a conditional get that delivers writes its audit record UNDER the database lock: a record slower
+		// than a millisecond puts the mutex into FIFO hand-off, so queued calls run in arrival order
+		in.SlowLog = []int{300, 1500, 4000}[r.IntN(3)]
+		if nth < 4 {
+			nth = 4
 		}
 	}
 	if in.Shape == "rotate" {
@@ -571,15 +574,23 @@ func genC14(seed uint64, i int) c14Input {
 					c = mk([]string{"get", "get", "info", "list", "getver", "getcond"}[r.IntN(6)])
 				}
 			case "poll-activate":
+				// ONE activate at the start of every segment (the operator rotates once, then the pollers go
+				// on): a poll invoked after it returned must not be told "not changed" for the old version.
+				// Conditional gets on "b" carrying a version it never had deliver a value, i.e. they hold the
+				// database lock while their (slow) audit record is written: the queue behind them is served
+				// in arrival order once a waiter has waited more than a millisecond.
 				switch {
-				case t == 0:
+				case t == 0 && k%per == 0:
 					c = mk("activate")
-					c.Name, c.Ver, c.Caller = names[0], uint32(1+(k+1)%2), 0
-				case t%2 == 1:
-					c = mk("get")
-					c.Name, c.Caller = names[0], 0
-				default:
+					c.Name, c.Ver, c.Caller = names[0], uint32(1+(e+1)%2), 0
+				case t == 0 || t == 3:
 					c = mk("getcond")
+					c.Name, c.Ver, c.Caller = names[1], 99, 0
+				case t == 1:
+					c = mk("getcond")
+					c.Name, c.Ver, c.Caller = names[0], uint32(1+(k+e)%2), 0
+				default:
+					c = mk([]string{"get", "getcond"}[k%2])
 					c.Name, c.Ver, c.Caller = names[0], uint32(1+r.IntN(2)), 0
 				}
 			case "rotate":
